@@ -124,6 +124,11 @@ impl L1Table {
         index < self.header_entries as usize
     }
 
+    /// how many entries the header lists, i.e. the size of the table on disk
+    pub fn header_entries(&self) -> usize {
+        self.header_entries as usize
+    }
+
     pub fn map_l2_offset(&mut self, index: usize, l2_offset: u64) {
         let l1entry = L1Entry((1 << 63) | l2_offset);
         debug_assert!(l1entry.reserved_bits() == 0);
